@@ -7,11 +7,21 @@
 //!       [2, chars..] -> SpacedRune::from_str  [0, n, spacers] | [1]
 //!       [3, chars..] -> RuneId::from_str      [0, block, tx] | [1]
 //!       [4, chars..] -> Decimal::from_str     [0, value, scale] | [1]
+//!       [5, chars..] -> InscriptionId::from_str [0, txid_hi, txid_lo, index] | [1]
+//!       [6, chars..] -> SatPoint::from_str    [0, txid_hi, txid_lo, vout, offset] | [1]
+//!       [7, chars..] -> Outgoing::from_str    [0, 0, sat] | [0, 1, txid_hi, txid_lo, vout, offset] | [0, 2, txid_hi, txid_lo, index]
+//!                                             | [0, 3, value, scale, rune, spacers] | [4] (dispatched to bitcoin::Amount, Ok or Err) | [1]
+//!       [8, chars..] -> query::Block          [0, 0, height] | [0, 1, hash_hi, hash_lo] | [1]
+//!       [9, chars..] -> query::Inscription    [0, 0, txid_hi, txid_lo, index] | [0, 1, number] | [0, 2, sat] | [1]
+//!       [10, chars..] -> query::Rune          [0, 0, rune, spacers] | [0, 1, block, tx] | [0, 2, number] | [1]
 use crate::big::Big;
 use crate::{c32, c34};
 use hxlib::*;
 use ord::decimal::Decimal;
-use ordinals::{Rune, RuneId, Sat, SpacedRune};
+use ord::outgoing::Outgoing;
+use ord::subcommand::server::query::verif_text::{parse_block, parse_inscription, parse_rune, BlockQuery, InscriptionQuery, RuneQuery};
+use ord::InscriptionId;
+use ordinals::{Rune, RuneId, Sat, SatPoint, SpacedRune};
 use std::cmp::Ordering;
 
 const SUPPLY: u64 = 2_099_999_997_690_000;
@@ -276,8 +286,156 @@ fn rune_id_strings(rng: &mut Rng, n: usize) -> Vec<String> {
   v
 }
 
+fn hex64(rng: &mut Rng) -> String {
+  let style = rng.below(4);
+  (0..64)
+    .map(|_| {
+      let d = rng.below(16) as u32;
+      let c = char::from_digit(d, 16).unwrap();
+      match style {
+        0 => c,
+        1 => c.to_ascii_uppercase(),
+        2 => '0',
+        _ => {
+          if rng.chance(1, 2) {
+            c.to_ascii_uppercase()
+          } else {
+            c
+          }
+        }
+      }
+    })
+    .collect()
+}
+
+fn hexish(rng: &mut Rng) -> String {
+  let mut h = hex64(rng);
+  match rng.below(10) {
+    0 => {
+      h.pop();
+    }
+    1 => h.push('a'),
+    2 => {
+      let pos = rng.below(64) as usize;
+      h.replace_range(pos..pos + 1, "g");
+    }
+    _ => {}
+  }
+  h
+}
+
+fn inscription_id_strings(rng: &mut Rng, n: usize) -> Vec<String> {
+  let z = "0".repeat(64);
+  let mut v: Vec<String> = vec![String::new(), format!("{z}i0"), format!("{z}i"), format!("{z}i+1"), format!("{z}i01"), format!("{z}i4294967295"), format!("{z}i4294967296"), format!("{z}I0"), format!("{z}:0"), format!("{z}i-1"), format!("{z}i٣"), format!("{}→i0", "0".repeat(63))];
+  for i in 0..n {
+    let s = format!("{}i{}", hexish(rng), int_lit(rng, &[0, 1, B32, B64]));
+    v.push(if i % 6 == 0 { mutate(rng, &s) } else { s });
+  }
+  v
+}
+
+fn satpoint_strings(rng: &mut Rng, n: usize) -> Vec<String> {
+  let z = "0".repeat(64);
+  let mut v: Vec<String> = vec![String::new(), ":".into(), "::".into(), format!("{z}:0:0"), format!("{z}:0"), format!("{z}:00:0"), format!("{z}:+0:0"), format!("{z}:0:+0"), format!("{z}:0:00"), format!("{z}:4294967295:18446744073709551615"), format!("{z}:4294967296:0"), format!("{z}:0:18446744073709551616"), format!("{z}:0:0:0"), format!("{z}:+:0"), format!("{z}::0")];
+  for i in 0..n {
+    let vout = match rng.below(3) {
+      0 => rng.below(1 << 33).to_string(),
+      _ => int_lit(rng, &[0, 1, 9, 10, B32]),
+    };
+    let s = format!("{}:{}:{}", hexish(rng), vout, int_lit(rng, &[0, 1, B32, B64]));
+    v.push(if i % 6 == 0 { mutate(rng, &s) } else { s });
+  }
+  v
+}
+
+fn outgoing_strings(rng: &mut Rng, n: usize) -> Vec<String> {
+  let z = "0".repeat(64);
+  let mut v: Vec<String> = [
+    "", "a", "sat", "btc", "nvtdijuwxlp", "nvtdijuwxlq", "abcdefghijkl", "0 btc", "0btc", "0.0btc", ".0btc", "1 sat", "1 sats", "1sats", "1 satoshis", "1 satoshiss",
+    "1  btc", "1 BTC", "1.btc", "1 bits", "1 msat", "1.5 msats", "21000000 btc", "21000001 btc", "0.000000001 btc", "1\u{a0}btc", "1 btc ", " 1 btc", "1 xbtc",
+    "1:A", "1 : A", "1.5:A•B", "1.5\u{a0}:\u{2003}AB.C", ".5:ZZZ", "5.:A", "1:", ":A", "1:a", "1::A", "1:A:B", "1:A B", "1 2:A", "1:.A", "1:A.", "1:A..B", "1\n:\nA", "1\t:\r\nA",
+    "340282366920938463463374607431768211455:A", "340282366920938463463374607431768211456:A", "340282366920938463463374607431768211455.1:A",
+    "1:BCGDENLQRQWDSLRUGSNLBTMFIJAV", "1:BCGDENLQRQWDSLRUGSNLBTMFIJAW", "1:AAAAAAAAAAAAAAAAAAAAAAAAAAAAAAAAA.A", "١:A",
+  ]
+  .iter()
+  .map(|s| s.to_string())
+  .collect();
+  v.push(format!("0.{}1:A", "0".repeat(38)));
+  v.push(format!("0.{}1:A", "0".repeat(300)));
+  v.push(format!("{z}:0:0"));
+  v.push(format!("{z}i0"));
+  v.push(format!("{z}:0:٣"));
+  let units = ["bit", "btc", "cbtc", "mbtc", "msat", "nbtc", "pbtc", "sat", "satoshi", "ubtc", "sats", "btcs", "BTC", "xbt", "satoshis"];
+  let ws = ["", " ", "  ", "\t", "\u{a0}", "\u{2003}", "\u{3000}", "\u{200b}", "\n"];
+  for i in 0..n {
+    let num = match rng.below(5) {
+      0 => int_lit(rng, &[0, 1, 21_000_000, B64, u128::MAX]),
+      1 => {
+        let k = rng.range(1, 45) as usize;
+        format!(".{}", digits(rng, k))
+      }
+      2 => {
+        let k = rng.range(0, 45) as usize;
+        format!("{}.{}", rng.u128_any_width(), digits(rng, k))
+      }
+      3 => {
+        let a = rng.range(1, 42) as usize;
+        let b = rng.range(1, 300) as usize;
+        format!("{}.{}", digits(rng, a), digits(rng, b))
+      }
+      _ => rng.below(1000).to_string(),
+    };
+    let s = match i % 5 {
+      0 => format!("{num}{}{}", if rng.chance(1, 2) { " " } else { "" }, rng.pick(&units)),
+      1 | 2 => {
+        let name = spaced_strings(rng, 1).pop().unwrap();
+        let (w1, w2) = (*rng.pick(&ws), *rng.pick(&ws));
+        format!("{num}{w1}:{w2}{name}")
+      }
+      3 => satpoint_strings(rng, 1).pop().unwrap(),
+      _ => {
+        if rng.chance(1, 2) {
+          inscription_id_strings(rng, 1).pop().unwrap()
+        } else {
+          let len = rng.range(1, 13) as usize;
+          (0..len).map(|_| (b'a' + rng.below(26) as u8) as char).collect()
+        }
+      }
+    };
+    v.push(if i % 7 == 0 { mutate_ascii(rng, &s) } else { s });
+  }
+  v
+}
+
+/// like `mutate` but never inserts a non-ASCII digit (the model treats \d as ASCII; see props/C31.json)
+fn mutate_ascii(rng: &mut Rng, s: &str) -> String {
+  let t = mutate(rng, s);
+  t.chars().map(|c| if c == '٣' || c == '１' { '7' } else { c }).collect()
+}
+
+fn number_strings(rng: &mut Rng, n: usize) -> Vec<String> {
+  let mut v: Vec<String> = ["0", "-0", "-1", "-", "+1", "2147483647", "2147483648", "-2147483648", "-2147483649", "4294967295", "4294967296", "18446744073709551615", "18446744073709551616", "--1", "-+1", "1-"]
+    .iter()
+    .map(|s| s.to_string())
+    .collect();
+  v.push("9".repeat(63));
+  v.push("9".repeat(64));
+  v.push(format!("-{}", "0".repeat(63)));
+  v.push(format!("-{}", "0".repeat(64)));
+  v.push(format!("{}1", "0".repeat(62)));
+  v.push(format!("{}1", "0".repeat(63)));
+  for _ in 0..n {
+    let mut s = int_lit(rng, &[0, 1 << 31, B32, B64]);
+    if rng.chance(1, 3) {
+      s.insert(0, '-');
+    }
+    v.push(s);
+  }
+  v
+}
+
 pub fn gen(rng: &mut Rng, tier: &str) -> Vec<Line> {
-  let n: usize = if tier == "thorough" { 2_000_000 } else { 24_000 };
+  let n: usize = if tier == "thorough" { 1_000_000 } else { 14_000 };
   let mut v = Vec::new();
   for s in sat_strings(rng, n) {
     v.push(sat_case(&s));
@@ -294,9 +452,37 @@ pub fn gen(rng: &mut Rng, tier: &str) -> Vec<Line> {
   for s in c34::decimal_strings(rng, n / 2) {
     v.push(str_line(&[4u8.into()], &s));
   }
+  for s in inscription_id_strings(rng, n / 8) {
+    v.push(str_line(&[5u8.into()], &s));
+    v.push(str_line(&[9u8.into()], &s));
+  }
+  for s in satpoint_strings(rng, n / 6) {
+    v.push(str_line(&[6u8.into()], &s));
+  }
+  for s in outgoing_strings(rng, n / 2) {
+    v.push(str_line(&[7u8.into()], &s));
+  }
+  // explorer queries: every notation they dispatch on
+  for s in number_strings(rng, n / 10) {
+    v.push(str_line(&[8u8.into()], &s));
+    v.push(str_line(&[9u8.into()], &s));
+    v.push(str_line(&[10u8.into()], &s));
+  }
+  for _ in 0..n / 10 {
+    v.push(str_line(&[8u8.into()], &hexish(rng)));
+  }
+  for s in sat_strings(rng, n / 10) {
+    v.push(str_line(&[9u8.into()], &s));
+  }
+  for s in spaced_strings(rng, n / 10) {
+    v.push(str_line(&[10u8.into()], &s));
+  }
+  for s in rune_id_strings(rng, n / 10) {
+    v.push(str_line(&[10u8.into()], &s));
+  }
   for _ in 0..n / 10 {
     let s = random_unicode(rng);
-    let op = rng.range(1, 4) as u8;
+    let op = *rng.pick(&[1u8, 2, 3, 4, 5, 6, 7, 8, 9, 10]);
     v.push(str_line(&[op.into()], &s));
   }
   v
@@ -396,6 +582,24 @@ fn sat_denotation(s: &str) -> Option<Option<u64>> {
   Some(lit(s).and_then(|n| n.to_u64()).filter(|&n| n < SUPPLY))
 }
 
+/// 64 lower-case hex digits -> (high, low) 128-bit halves
+fn hash_halves(hex: &str) -> (u128, u128) {
+  (u128::from_str_radix(&hex[..32], 16).unwrap(), u128::from_str_radix(&hex[32..], 16).unwrap())
+}
+
+fn inscription_id_denotes(s: &str, id: &InscriptionId) -> Result<(), String> {
+  let ok = s.is_ascii()
+    && s.len() >= 66
+    && s[..64].to_ascii_lowercase() == id.txid.to_string()
+    && &s[64..65] == "i"
+    && lit(&s[65..]).and_then(|v| v.to_u64()) == Some(u64::from(id.index));
+  if ok {
+    Ok(())
+  } else {
+    Err(format!("{s:?} parses to {id:?}"))
+  }
+}
+
 pub fn run(case: &Line) -> Outcome {
   let mut c = Cur::new(case);
   match c.u8() {
@@ -491,6 +695,189 @@ pub fn run(case: &Line) -> Outcome {
         let (obs, cat) = match &r {
           Ok(id) => (L::new().p(0u8).p(id.block).p(id.tx).done(), "rune-id/ok"),
           Err(_) => (L::new().p(1u8).done(), "rune-id/err"),
+        };
+        Outcome { obs, oracle, cat: cat.to_string() }
+      })
+    }
+    5 => {
+      let s = rest_string(&mut c);
+      guarded("inscription-id", || {
+        let r = s.parse::<InscriptionId>();
+        let oracle = match &r {
+          Ok(id) => inscription_id_denotes(&s, id),
+          Err(_) => Ok(()),
+        };
+        let (obs, cat) = match &r {
+          Ok(id) => {
+            let (hi, lo) = hash_halves(&id.txid.to_string());
+            (L::new().p(0u8).p(hi).p(lo).p(id.index).done(), "inscription-id/ok")
+          }
+          Err(_) => (L::new().p(1u8).done(), "inscription-id/err"),
+        };
+        Outcome { obs, oracle, cat: cat.to_string() }
+      })
+    }
+    6 => {
+      let s = rest_string(&mut c);
+      guarded("satpoint", || {
+        let r = s.parse::<SatPoint>();
+        let oracle = match &r {
+          Ok(sp) => {
+            let parts: Vec<&str> = s.split(':').collect();
+            if parts.len() == 3
+              && parts[0].len() == 64
+              && parts[0].to_ascii_lowercase() == sp.outpoint.txid.to_string()
+              && parts[1] == sp.outpoint.vout.to_string()
+              && lit(parts[2]).and_then(|o| o.to_u64()) == Some(sp.offset)
+            {
+              Ok(())
+            } else {
+              Err(format!("{s:?} parses to {sp:?}"))
+            }
+          }
+          Err(_) => Ok(()),
+        };
+        let (obs, cat) = match &r {
+          Ok(sp) => {
+            let (hi, lo) = hash_halves(&sp.outpoint.txid.to_string());
+            (L::new().p(0u8).p(hi).p(lo).p(sp.outpoint.vout).p(sp.offset).done(), "satpoint/ok")
+          }
+          Err(_) => (L::new().p(1u8).done(), "satpoint/err"),
+        };
+        Outcome { obs, oracle, cat: cat.to_string() }
+      })
+    }
+    7 => {
+      let s = rest_string(&mut c);
+      guarded("outgoing", || {
+        let r = s.parse::<Outgoing>();
+        let (obs, cat, oracle) = match &r {
+          Ok(Outgoing::Amount(_)) => (L::new().p(4u8).done(), "outgoing/amount-ok".to_string(), Ok(())),
+          Err(e) if format!("{e:?}").starts_with("AmountParse") => (L::new().p(4u8).done(), "outgoing/amount-err".to_string(), Ok(())),
+          Ok(Outgoing::Sat(sat)) => (
+            L::new().p(0u8).p(0u8).p(sat.0).done(),
+            "outgoing/sat".to_string(),
+            if sat_denotation(&s) == Some(Some(sat.0)) && s.chars().all(|c| c.is_ascii_lowercase()) { Ok(()) } else { Err(format!("{s:?} parses to sat {}", sat.0)) },
+          ),
+          Ok(Outgoing::SatPoint(sp)) => {
+            let (hi, lo) = hash_halves(&sp.outpoint.txid.to_string());
+            let parts: Vec<&str> = s.split(':').collect();
+            let ok = parts.len() == 3
+              && parts[0].to_ascii_lowercase() == sp.outpoint.txid.to_string()
+              && parts[1] == sp.outpoint.vout.to_string()
+              && lit(parts[2]).and_then(|o| o.to_u64()) == Some(sp.offset);
+            (
+              L::new().p(0u8).p(1u8).p(hi).p(lo).p(sp.outpoint.vout).p(sp.offset).done(),
+              "outgoing/satpoint".to_string(),
+              if ok { Ok(()) } else { Err(format!("{s:?} parses to {sp:?}")) },
+            )
+          }
+          Ok(Outgoing::InscriptionId(id)) => {
+            let (hi, lo) = hash_halves(&id.txid.to_string());
+            (L::new().p(0u8).p(2u8).p(hi).p(lo).p(id.index).done(), "outgoing/inscription-id".to_string(), inscription_id_denotes(&s, id))
+          }
+          Ok(Outgoing::Rune { decimal, rune }) => {
+            let ok = s.split_once(':').map_or(false, |(l, r)| {
+              let (num, name) = (l.trim_end(), r.trim_start());
+              let dec_ok = match c34::decimal_denotation(num) {
+                Some((n, k)) => Big::from_u128(decimal.value).mul(&Big::pow10(k)).cmp(&n.mul(&Big::pow10(decimal.scale.into()))) == Ordering::Equal,
+                None => false,
+              };
+              dec_ok && c32::spaced_value(name) == Some(Ok((rune.rune.0, rune.spacers)))
+            });
+            (
+              L::new().p(0u8).p(3u8).p(decimal.value).p(decimal.scale).p(rune.rune.0).p(rune.spacers).done(),
+              "outgoing/rune".to_string(),
+              if ok { Ok(()) } else { Err(format!("{s:?} parses to {decimal:?} of {rune:?}")) },
+            )
+          }
+          Err(e) => {
+            let d = format!("{e:?}");
+            let k = d.split(|c: char| !c.is_alphanumeric()).next().unwrap_or("").to_string();
+            (L::new().p(1u8).done(), format!("outgoing/err/{k}"), Ok(()))
+          }
+        };
+        Outcome { obs, oracle, cat }
+      })
+    }
+    8 => {
+      let s = rest_string(&mut c);
+      guarded("query-block", || {
+        let r = parse_block(&s);
+        let (obs, cat, oracle) = match &r {
+          Ok(BlockQuery::Height(h)) => (
+            L::new().p(0u8).p(0u8).p(*h).done(),
+            "query-block/height",
+            if lit(&s).and_then(|v| v.to_u64()) == Some(u64::from(*h)) { Ok(()) } else { Err(format!("{s:?} parses to height {h}")) },
+          ),
+          Ok(BlockQuery::Hash(hash)) => {
+            let (hi, lo) = hash_halves(&hash.to_string());
+            (
+              L::new().p(0u8).p(1u8).p(hi).p(lo).done(),
+              "query-block/hash",
+              if s.len() == 64 && s.to_ascii_lowercase() == hash.to_string() { Ok(()) } else { Err(format!("{s:?} parses to hash {hash}")) },
+            )
+          }
+          Err(_) => (L::new().p(1u8).done(), "query-block/err", Ok(())),
+        };
+        Outcome { obs, oracle, cat: cat.to_string() }
+      })
+    }
+    9 => {
+      let s = rest_string(&mut c);
+      guarded("query-inscription", || {
+        let r = parse_inscription(&s);
+        let (obs, cat, oracle) = match &r {
+          Ok(InscriptionQuery::Id(id)) => {
+            let (hi, lo) = hash_halves(&id.txid.to_string());
+            (L::new().p(0u8).p(0u8).p(hi).p(lo).p(id.index).done(), "query-inscription/id", inscription_id_denotes(&s, id))
+          }
+          Ok(InscriptionQuery::Number(n)) => {
+            let (neg, body) = match s.strip_prefix('-') {
+              Some(b) => (true, b),
+              None => (false, s.as_str()),
+            };
+            let ok = Big::from_decimal(body).and_then(|v| v.to_u64()).map(|v| if neg { -(v as i128) } else { v as i128 }) == Some(i128::from(*n));
+            (
+              L::new().p(0u8).p(1u8).p(*n).done(),
+              "query-inscription/number",
+              if ok { Ok(()) } else { Err(format!("{s:?} parses to inscription number {n}")) },
+            )
+          }
+          Ok(InscriptionQuery::Sat(sat)) => (
+            L::new().p(0u8).p(2u8).p(sat.0).done(),
+            "query-inscription/sat",
+            if sat_denotation(&s) == Some(Some(sat.0)) && s.chars().all(|c| c.is_ascii_lowercase()) { Ok(()) } else { Err(format!("{s:?} parses to sat {}", sat.0)) },
+          ),
+          Err(_) => (L::new().p(1u8).done(), "query-inscription/err", Ok(())),
+        };
+        Outcome { obs, oracle, cat: cat.to_string() }
+      })
+    }
+    10 => {
+      let s = rest_string(&mut c);
+      guarded("query-rune", || {
+        let r = parse_rune(&s);
+        let (obs, cat, oracle) = match &r {
+          Ok(RuneQuery::Spaced(sr)) => (
+            L::new().p(0u8).p(0u8).p(sr.rune.0).p(sr.spacers).done(),
+            "query-rune/spaced",
+            if c32::spaced_value(&s) == Some(Ok((sr.rune.0, sr.spacers))) { Ok(()) } else { Err(format!("{s:?} parses to {sr:?}")) },
+          ),
+          Ok(RuneQuery::Id(id)) => {
+            let den = s.split_once(':').and_then(|(b, t)| Some((lit(b)?.to_u64()?, u32::try_from(lit(t)?.to_u64()?).ok()?)));
+            (
+              L::new().p(0u8).p(1u8).p(id.block).p(id.tx).done(),
+              "query-rune/id",
+              if den == Some((id.block, id.tx)) { Ok(()) } else { Err(format!("{s:?} parses to {id:?}")) },
+            )
+          }
+          Ok(RuneQuery::Number(n)) => (
+            L::new().p(0u8).p(2u8).p(*n).done(),
+            "query-rune/number",
+            if Big::from_decimal(&s).and_then(|v| v.to_u64()) == Some(*n) { Ok(()) } else { Err(format!("{s:?} parses to rune number {n}")) },
+          ),
+          Err(_) => (L::new().p(1u8).done(), "query-rune/err", Ok(())),
         };
         Outcome { obs, oracle, cat: cat.to_string() }
       })
